@@ -4,7 +4,7 @@
 From Coq Require Import ZArith Reals List Bool.
 From Rubato.Model Require Import Num Reals Base Validate Async Resamplers.
 From Rubato.Gen Require Import FastGen SincGen.
-From Rubato.Proofs Require Import MalformedP FastInR FastOutR FastCtorR GettersR SincInR.
+From Rubato.Proofs Require Import MalformedP FastInR FastOutR FastCtorR GettersR SincInR SincOutR.
 Local Open Scope R_scope.
 
 (** FastFixedIn: a valid call consumes exactly input_frames_next() (= chunk) frames, writes
@@ -64,8 +64,19 @@ Theorem C04_fast_out_next_le_max_R : forall blen (s : @astate CR SR (@FastFixedO
   (@fo_input_frames_next CR st <= @fo_input_frames_max CR st)%Z.
 Proof. exact fo_next_le_max_R. Qed.
 
+(** SincFixedOut at constant ratio (any set_chunk_size schedule): a valid call consumes exactly
+    input_frames_next() = needed_input_size frames and writes exactly chunk_size frames *)
+Theorem C04_sinc_out_counts_R : forall env blen (s : @astate CR SR (@SincFixedOut CR)) wi wo m,
+  so_wf env blen s -> a_precheck (@so_arch CR SR env) s wi wo m = Ok tt ->
+  exists s' outs, pib (@so_arch CR SR env) s wi wo m = Ok (s', (@so_input_frames_next CR (as_ctl s), @so_output_frames_next CR (as_ctl s)), outs).
+Proof.
+  intros env blen s wi wo m W P. destruct (so_call_const_R env blen s wi wo m W P) as (s' & outs & E & _).
+  exists s', outs. exact E.
+Qed.
+
 Print Assumptions C04_fast_in_counts_R.
 Print Assumptions C04_fast_out_counts_R.
 Print Assumptions C04_fast_in_next_le_max_R.
 Print Assumptions C04_fast_out_next_le_max_R.
 Print Assumptions C04_sinc_in_counts_R.
+Print Assumptions C04_sinc_out_counts_R.
